@@ -40,6 +40,17 @@ CHECKS = {
         "Denotation clause only for grammar-clean headers; lenient extraction from other text is judged by the structural clause "
         "and the exception class. Either rejection accepted when a header is both malformed and unsatisfiable.",
     ),
+    "C04": (
+        "exploration",
+        "differential: Hypothesis abstract requests x recipes / application compositions interpreted once as baize.wsgi and once as baize.asgi object graphs, run through strict WSGI and ASGI gateways",
+        "The same abstract request (method, Unicode path, query bytes, header list with grammar-built values, body partition, client, server, "
+        "scheme, root path) is presented as WSGI environ and as ASGI scope + messages; (a) a view echoes the entire request view incl. "
+        "body/json/form/stream in a generated order and uploaded files, (b) every response recipe is used as app and as view result, (c) "
+        "Router/Subpaths/Hosts compositions, Files/Pages with Range and conditional headers, decorators and middleware stacks are "
+        "dispatched; echo structures, status, header multisets, body bytes, escaping exception classes and the dispatched leaves must agree.",
+        "Sanctioned/normalised: ASGI SSE Connection header, random byteranges boundary, wall-clock second of cookie Expires, reason phrase, chunking. "
+        "No underscores in header names; valid UTF-8 paths.",
+    ),
     "C05": (
         "fault_enumeration",
         "Hypothesis response recipes x enumerated fault points (disconnect after every k-th send, close after every k-th item, producer exceptions) judged by prefix-closed protocol automata of strict WSGI/ASGI gateways",
@@ -198,7 +209,7 @@ CHECKS = {
     ),
 }
 
-NOT_YET = "check not built yet (work in progress; see DESIGN.md section 3 for the plan)"
+NOT_YET = "not claimed"
 
 
 def main() -> None:
